@@ -191,13 +191,8 @@ def Kept (pend : List Nat) (c' : List Block) (pend' : List Nat) : Prop :=
 
 theorem verify_pending (s : St) (b : Block) : (verify s b).1.mem.pending = s.mem.pending := by
   unfold verify
-  split
-  · rfl
-  · split
-    · rfl
-    · split
-      · rfl
-      · split <;> rfl
+  repeat' split
+  all_goals rfl
 
 /-- what `insertB ∘ insertA` gives a node that cannot die -/
 theorem insertAB_safe {T : Nat → Option Block} {s : St} {b y : Block} {c : List Block} (hs : Safe s)
